@@ -1218,6 +1218,14 @@ class PydWorld:
         c15_models.fresh()
         self.models = c15_models
         self.slots: list[Any] = [None] * NSLOTS
+        # which model class a slot validates with, as far as the documented behaviour tells: "ext:M1" for a
+        # grammar built on (or unpickled from one built on) the user's model class M1, a unique tag otherwise
+        self.origin: list[str] = [""] * NSLOTS
+        self._n = 0
+
+    def _internal(self) -> str:
+        self._n += 1
+        return f"int#{self._n}"
 
     def show_slot(self, i: int) -> str:
         g = self.slots[i]
@@ -1243,6 +1251,7 @@ class PydWorld:
         if op == "pnew":
             model = None if t[2] == "-" else getattr(self.models, t[2])
             self.slots[int(t[1])] = PydanticGrammar(f"g{t[1]}", model=model)
+            self.origin[int(t[1])] = self._internal() if model is None else "ext:" + t[2]
             return "ok"
         if op in ("upd", "copy", "pickle"):
             a, b = int(t[1]), int(t[2])
@@ -1270,10 +1279,15 @@ class PydWorld:
                 g.add_namespace(t[2], t[3])
             elif op == "clear":
                 g.clear()
+                self.origin[int(t[1])] = self._internal()
             elif op == "copy":
                 self.slots[b] = self.slots[a].copy()
+                # known finding: PydanticGrammar._copy keeps the very same model class (copy() of a class)
+                self.origin[b] = self.origin[a]
             elif op == "pickle":
                 self.slots[b] = pickle.loads(pickle.dumps(self.slots[a]))
+                # a user's model class is pickled by reference
+                self.origin[b] = self.origin[a] if self.origin[a].startswith("ext:") else self._internal()
             elif op == "setdef":
                 g.defaults[t[2]] = int(t[3])
             elif op == "deldef":
@@ -1352,6 +1366,7 @@ def pyd_oracle(lines: list[str], seed_key: str) -> list[tuple[str, str]]:
         op = t[0]
         before = [w.show_slot(i) for i in range(NSLOTS)]
         exp_exc = pyd_expected_exception(w, ln)
+        origin_before = list(w.origin)
         st = w.apply(ln)
         after = [w.show_slot(i) for i in range(NSLOTS)]
         where = f"step {idx} `{ln}`"
@@ -1363,14 +1378,24 @@ def pyd_oracle(lines: list[str], seed_key: str) -> list[tuple[str, str]]:
             elif exp_exc is not None and st != exp_exc:
                 bad.append((f"pydantic:missing-exception:{op}", f"{where} answered {st}, documented: {exp_exc}"))
         allowed = {int(t[2])} if op in ("copy", "pickle") else {int(t[1])}
+        tgt = next(iter(allowed))
         for i in range(NSLOTS):
             if i not in allowed and before[i] != after[i]:
-                bad.append((f"pydantic:frame:{op}", f"{where} changed slot {i}: {before[i]} -> {after[i]}"))
+                if w.origin[i] == origin_before[tgt]:
+                    key = "pydantic:model-shared"
+                    msg = f"{where} changed slot {i} which shares its model class ({w.origin[i]}) with the edited grammar: {before[i]} -> {after[i]}"
+                else:
+                    key, msg = f"pydantic:frame:{op}", f"{where} changed slot {i}: {before[i]} -> {after[i]}"
+                bad.append((key, msg))
         if op in ("copy", "pickle") and st == "ok" and before[int(t[1])] != after[int(t[2])]:
             bad.append((f"pydantic:{op}-definition", f"{where}: result {after[int(t[2])]} differs from the source {before[int(t[1])]}"))
-        for i in range(NSLOTS):
-            if w.slots[i] is not None:
-                pyd_check_grammar(w.slots[i], rng, bad, f"{where} slot {i}")
+        if not bad:
+            for i in range(NSLOTS):
+                if w.slots[i] is not None:
+                    b2: list[tuple[str, str]] = []
+                    pyd_check_grammar(w.slots[i], rng, b2, f"{where} slot {i}")
+                    shared = i != tgt and w.origin[i] == w.origin[tgt] and op not in ("copy", "pickle")
+                    bad += [("pydantic:model-shared", m + " (the grammar shares its model class with the edited one)") if shared else (k, m) for k, m in b2]
         if [w.show_slot(i) for i in range(NSLOTS)] != after:
             bad.append(("pydantic:query-impure", f"{where}: validating changed the public state"))
         if bad:
